@@ -2,8 +2,36 @@
 //! One module per property (`cNN.rs`, `pub fn run(args: &hcore::Args, out: &mut hcore::Out)`).
 
 mod c50;
+mod c50_seq;
 
-hcore::install_clock!();
+// Frozen monotonic clock: `Instant::now()` = (real time at first use) + `hcore::warp` offset, so
+// the only way time passes for the code under test is an explicit `hcore::warp` — every throttle
+// comparison in the AutoNAT server is exact and reproducible (no dependence on machine load).
+extern "C" {
+    fn __clock_gettime(clk: i32, ts: *mut [i64; 2]) -> i32;
+}
+static BASE_SET: std::sync::atomic::AtomicBool = std::sync::atomic::AtomicBool::new(false);
+static BASE_S: std::sync::atomic::AtomicI64 = std::sync::atomic::AtomicI64::new(0);
+static BASE_NS: std::sync::atomic::AtomicI64 = std::sync::atomic::AtomicI64::new(0);
+
+#[no_mangle]
+pub unsafe extern "C" fn clock_gettime(clk: i32, ts: *mut [i64; 2]) -> i32 {
+    use std::sync::atomic::Ordering::SeqCst;
+    let r = __clock_gettime(clk, ts);
+    if r == 0 && clk == 1 {
+        let t = &mut *ts;
+        if !BASE_SET.load(SeqCst) {
+            BASE_S.store(t[0], SeqCst);
+            BASE_NS.store(t[1], SeqCst);
+            BASE_SET.store(true, SeqCst);
+        }
+        let off = hcore::CLOCK_OFFSET_NS.load(SeqCst) as i64;
+        let total = BASE_NS.load(SeqCst) + off % 1_000_000_000;
+        t[0] = BASE_S.load(SeqCst) + off / 1_000_000_000 + total / 1_000_000_000;
+        t[1] = total % 1_000_000_000;
+    }
+    r
+}
 
 fn main() {
     let args = hcore::Args::parse();
